@@ -7,6 +7,25 @@ from ..srcmodel import AnalysisError, SourceModel
 from . import tables as T
 
 
+def class_lookup_exprs(fn: ast.FunctionDef, node_p: str) -> set:
+    """texts that denote the element class of the node inside the converter: the lookup from the tag itself, and every local name bound exactly
+    once, at the top level of the function, to that lookup"""
+    lookup = f"eval(convert_to_xml_class_name({node_p}.tag))"
+    out = {lookup}
+    stores = {}
+    for n in ast.walk(fn):
+        if isinstance(n, ast.Name) and isinstance(n.ctx, (ast.Store, ast.Del)):
+            stores[n.id] = stores.get(n.id, 0) + 1
+    seen_compound = False
+    for st in fn.body:
+        if isinstance(st, ast.Assign) and len(st.targets) == 1 and isinstance(st.targets[0], ast.Name) and unparse(st.value) == lookup and stores.get(st.targets[0].id) == 1 \
+                and not seen_compound:
+            out.add(st.targets[0].id)
+        if isinstance(st, (ast.Try, ast.For, ast.While, ast.With)):
+            seen_compound = True
+    return out
+
+
 class Rung:
     def __init__(self, conv, stmt, caught):
         self.conv = conv          # 'id' | 'int' | 'float' | other text
